@@ -60,7 +60,7 @@ mut('C03', 'maxiter-off-by-one', CC + 'check_convergence.py', 'iter_converged = 
 mut('C03', 'restol-times-ten', CC + 'check_convergence.py', 'L.status.residual <= L.params.restol and', 'L.status.residual <= 10 * L.params.restol and')
 mut('C03', 'residual-drops-tau', 'pySDC/core/sweeper.py', '            if L.tau[m] is not None:\n                L.residual[m] += L.tau[m]', '            if False:\n                L.residual[m] += L.tau[m]')
 # ---------------------------------------------------------------------------------------------------------------- C04
-mut('C04', 'spread-predictor-copies-zero', 'pySDC/core/sweeper.py', "                L.u[m] = P.dtype_u(L.u[0])\n                L.f[m] = P.dtype_f(L.f[0])", "                L.u[m] = P.dtype_u(init=P.init, val=0.0)\n                L.f[m] = P.dtype_f(init=P.init, val=0.0)")
+mut('C04', 'spread-predictor-evaluates-f-at-t0', 'pySDC/core/sweeper.py', "                L.u[m] = P.dtype_u(L.u[0])\n                L.f[m] = P.eval_f(L.u[m], L.time + L.dt * self.coll.nodes[m - 1])", "                L.u[m] = P.dtype_u(init=P.init, val=0.0)\n                L.f[m] = P.eval_f(L.u[m], L.time + L.dt * self.coll.nodes[m - 1])")
 mut('C04', 'endpoint-weights-shifted', SW + 'generic_implicit.py', 'L.uend += L.dt * self.coll.weights[m] * L.f[m + 1]', 'L.uend += L.dt * self.coll.weights[m - 1] * L.f[m + 1]')
 mut('C04', 'revert-F26-rkn-stage-time', SW + 'Runge_Kutta_Nystrom.py', 'L.f[m + 1] = P.eval_f(L.u[m + 1], L.time + L.dt * self.coll.nodes[m + 1])', 'L.f[m + 1] = P.eval_f(L.u[m + 1], L.time + L.dt * self.coll.nodes[m])')
 mut('C04', 'rkn-weight-perturbed', SW + 'Runge_Kutta_Nystrom.py', 'weights_bar = np.array([1.0, 1.0, 1.0, 0]) / 6.0', 'weights_bar = np.array([1.0, 1.0, 1.001, 0]) / 6.0')
@@ -107,7 +107,7 @@ mut('C09', 'optimal-step-order-plus-one', CC + 'adaptivity.py', 'return beta * d
 mut('C09', 'dt-min-not-enforced', CC + 'step_size_limiter.py', '                    L.status.dt_new = self.params.dt_min', '                    pass')
 mut('C09', 'slope-min-uses-slope-max', CC + 'step_size_limiter.py', 'dt_new = L.params.dt * self.params.dt_slope_min', 'dt_new = L.params.dt * self.params.dt_slope_max')
 mut('C09', 'spreader-takes-smallest-of-restarted', CC + 'spread_step_sizes.py', '            if self.params.spread_from_first_restarted:\n                spread_from_step = restart_at', '            if False:\n                spread_from_step = restart_at')
-mut('C09', 'revert-F15-dt-per-step', CC + 'spread_step_sizes.py', '        if S is not MS[0]:\n            for i in range(len(S.levels)):\n                S.levels[i].params.dt = self.new_steps_block[i]\n            return None\n', '')
+mut('C09', 'revert-F15-dt-per-step', CC + 'spread_step_sizes.py', '        if S is not MS[0]:\n            for i in range(len(S.levels)):\n                S.levels[i].params.dt = self.new_steps_block[i]\n            return None\n', '', expect='equivalent since fix 729c982 (F22): the Tend limit no longer reads the step sizes of the other steps, so recomputing it per step is idempotent')
 # ---------------------------------------------------------------------------------------------------------------- C10
 mut('C10', 'tau-sign-flipped', 'pySDC/core/base_transfer.py', 'G.tau[m] = tauFG[m] - tauG[m]', 'G.tau[m] = tauG[m] - tauFG[m]')
 mut('C10', 'prolong-full-value', 'pySDC/core/base_transfer.py', 'tmp_u.append(self.space_transfer.prolong(G.u[m] - G.uold[m]))', 'tmp_u.append(self.space_transfer.prolong(G.u[m]))')
@@ -124,7 +124,7 @@ mut('C11', 'fft-prolong-drops-a-mode', TR + 'TransferMesh_FFT.py', 'fine_hat[0:h
 mut('C12', 'fd-direct-solve-sign', PC + 'generic_ND_FD.py', 'sol[:] = spsolve(Id - factor * A, rhs.flatten()).reshape(nvars)', 'sol[:] = spsolve(Id + factor * A, rhs.flatten()).reshape(nvars)')
 # ---------------------------------------------------------------------------------------------------------------- C14
 mut('C14', 'filter-keeps-on-mismatch', 'pySDC/helpers/stats_helper.py', 'if all([k._asdict().get(k2, None) == v2 for k2, v2 in kwargs.items() if v2 is not None] + [True]):', 'if any([k._asdict().get(k2, None) == v2 for k2, v2 in kwargs.items() if v2 is not None] + [not kwargs]):')
-mut('C14', 'stats-not-reset-between-runs', CT + 'controller_nonMPI.py', '        for hook in self.hooks:\n            hook.reset_stats()\n', '')
+mut('C14', 'stats-not-reset-between-runs', CT + 'controller_nonMPI.py', '        for hook in self.hooks:\n            hook.reset_stats()\n', '', expect='equivalent for C14: it runs every controller once; re-runs are C19 (same mutant listed there)')
 # ---------------------------------------------------------------------------------------------------------------- C18
 mut('C18', 'centered-stencil-shifted', 'pySDC/helpers/problem_helper.py', 'steps = np.arange(n) - n // 2', 'steps = np.arange(n) - n // 2 + (1 if n > 5 else 0)')
 mut('C18', 'dirichlet-grid-spacing', 'pySDC/helpers/problem_helper.py', 'dx = L / (size + 1)', 'dx = L / size')
